@@ -38,7 +38,6 @@ not_caught = {
  'C20-12': 'needs a directory result holding a relative symlink that points outside its own directory; generated directory values hold files and empty directories only',
  'C02-14': 'needs a Path-typed parameter whose value carries a placeholder AND ends in a slash, built under different global-variable values; Path-typed values are generated without trailing separators',
  'C13-14': 'needs two member configs of one MultiChain that pull in the same config file under contexts with the same *name* (exp1/context.json, exp2/context.json) but different content; generated context files of one history have distinct names',
- 'C20-14': 'removes the kept work directory of an unfinished ContinuesData computation from the source; the listing comparison of the source ignores work paths (<name>_tmp), which inspection by the unchanged migration legitimately creates (known finding F5)',
  'C20-15': 'needs the system temporary directory on another file system than the target *and* a process death inside shutil.move; the crash points of the migration profile are counted over operations inside the store only',
  'C12-15': 'needs a result that sits at its 1.4.0 place without its run info file (data-only copy); release 1.4.0 always writes the run info beside the result',
  'C20-10': 'neutralised by the F18 repair (82f9451): it needed the empty target file an interrupted copy used to leave; after the repair the rebased change no longer changes behaviour for deterministic tasks (demo exits 0 with and without it)',
